@@ -205,6 +205,32 @@ func splitAnd(t Term) []Term {
 	return out
 }
 
+// groundQuery: the query for goal with every quantified fact of the path condition dropped (the
+// definitional axioms of the prelude - element access, sub-objects, value ranges - stay).
+// dropped=false when there is nothing to drop.
+func groundQuery(prelude string, ob *Obligation, goal Term) (string, bool) {
+	var sb strings.Builder
+	sb.WriteString("; obligation " + ob.Name + " in " + ob.Fn + " (quantifier-free part of the path condition)\n")
+	sb.WriteString(prelude)
+	seen := map[string]bool{}
+	dropped := false
+	for _, p := range ob.PC {
+		if seen[p.S] {
+			continue
+		}
+		seen[p.S] = true
+		if strings.Contains(p.S, "(forall ") || strings.Contains(p.S, "(exists ") {
+			dropped = true
+			continue
+		}
+		sb.WriteString("(assert ")
+		sb.WriteString(p.S)
+		sb.WriteString(")\n")
+	}
+	sb.WriteString("(assert (not " + goal.S + "))\n(check-sat)\n")
+	return sb.String(), dropped
+}
+
 func buildQueryGoal(prelude string, ob *Obligation, goal Term) string {
 	var sb strings.Builder
 	sb.WriteString("; obligation " + ob.Name + " in " + ob.Fn + "\n")
@@ -324,6 +350,7 @@ type SolveOpts struct {
 	Portfolio []string
 	Jobs     int
 	NoLead   bool
+	NoGround bool
 	Kinds    map[string]bool // nil = all obligation kinds
 	// CrossCheck (thorough tier): every discharged obligation is put to a second, different
 	// solver; its verdict is recorded (Confirm) and a contradiction (sat against unsat) is a failure.
@@ -418,6 +445,18 @@ func solveOb(ob *Obligation, prelude, query, base string, opts SolveOpts) *Solve
 			}
 		}
 		return r
+	}
+	// ground-first: many obligations (infeasible paths, byte-level case analyses) follow from the
+	// quantifier-free part of the path condition alone; quantified assumptions (and recursive
+	// spec functions feeding them new terms) only distract the solver there. Dropping
+	// assumptions is sound for an "unsat" answer, and only that answer is used.
+	if gq, dropped := groundQuery(prelude, ob, ob.Goal); dropped && !opts.NoGround {
+		g := runSolver(solvers[opts.Portfolio[0]], gq, opts.Dir, base+".g", 2, false)
+		if g.Status == "unsat" {
+			g.Solver += "(ground)"
+			g.Tried = []string{fmt.Sprintf("%s(ground):unsat:%.2fs", opts.Portfolio[0], g.Seconds)}
+			return g
+		}
 	}
 	parts := splitAnd(ob.Goal)
 	if len(parts) <= 1 {
